@@ -178,6 +178,24 @@ def expected_struct(mt, none, opts, paren_map, with_edges, skip_root_label=False
     return root, toks
 
 
+class _AsciiOnly(io.StringIO):
+    def write(self, text):
+        text.encode('ascii')
+        return io.StringIO.write(self, text)
+
+
+def failed_call(fmt, mt):
+    writer = getattr(treeoutput, fmt)
+    for stream, kw in ((io.StringIO(), {'mark_heads_marking': True}), (_AsciiOnly(), {})):
+        victim = build(model.MT(mt.sid, [dict(tk, word='w\u00e4' + tk['word']) for tk in mt.toks], mt.root))
+        for x in all_nodes(victim):
+            x.data.pop('head', None)
+        try:
+            writer(victim, stream, **kw)
+        except Exception:
+            pass
+
+
 def check_one(mtj, none, fmt, opts, order=None):
     mt = model.MT.from_json(mtj)
     none = tuple(none)
@@ -190,6 +208,11 @@ def check_one(mtj, none, fmt, opts, order=None):
                     'what': '%s writer: %s' % (fmt, kind)})
     t = build_variant(mt, none, order)
     disc = model.mt_tree_gap_degree(mt.root) > 0
+    if mt.n() % 2 == 0:
+        # a failed call is part of the history: on every other tree the same writer was first asked for head marking on
+        # a tree without head marks (the writer raises half-way through the tree) and for a stream that cannot encode
+        # a word; what it wrote or kept then must not show in the write that is checked
+        failed_call(fmt, mt)
     stream = io.StringIO()
     try:
         lib_opts = cli_options(opts)        # as --dest-opts gives them; expectations use `opts`
